@@ -963,6 +963,12 @@ def _call_ext(interp, ext, node, args, kwargs, st):
                         break
                 return fresh(d, tags=frozenset(["concat", "hetero"]) | _rows_concat(name, elems))
             return fresh(d, tags=frozenset(["concat"]) | _rows_concat(name, elems))
+        if name == "resize" and a0 is not None:
+            # np.resize(a, n) fills the new length by repeating `a` cyclically: a padded vertex cycle walks its first corners
+            # again (pseudo-dependence, travels with the data dependences)
+            out = fresh(a0.dim, kind=a0.kind if a0.kind in ("idx", "idxlist", "arr") else "arr")
+            out.deps = out.deps | {("cyclic-pad", f"resize@{getattr(node, 'lineno', 0)}")}
+            return out
         if name in ("take_along_axis", "take", "compress", "delete", "choose", "select", "insert"):
             tags = frozenset()
             idx = args[1] if len(args) > 1 else Val()
